@@ -40,7 +40,7 @@ def cases(tier, seed):
                     for obj in objs:
                         fm = FMTS if tier == "thorough" and n <= 2 and m >= 1 else [FMTS[idx % 4]]
                         for fmt in fm:
-                            for si in range(6):
+                            for si in range(7):
                                 out.append({"n": n, "vk": list(vk), "rows": [list(r) for r in rows], "obj": obj,
                                             "fmt": fmt, "si": si,
                                             "lat": [1, 2] if tier == "quick" else [0, 1, 2, 3]})
@@ -52,6 +52,14 @@ def cases(tier, seed):
                 out.append({"n": 2, "vk": vk, "rows": [list(r) for r in rows], "obj": "qfull", "fmt": FMTS[idx % 4], "si": si,
                             "lat": [1, 2] if tier == "quick" else [0, 1, 2, 3]})
                 idx += 1
+    # matrices whose stored pattern is the set of CURRENT non-zeros (changes from point to point, sometimes with the same nnz)
+    for vk in (["free", "boxed"], ["lower", "upper"]):
+        for rows in ([("bilinear", "eq0")], [("sphere", "ranged"), ("bilinear", "upper")], [("cubic", "lower")]):
+            for obj in ("rosen", "cubic"):
+                for si in range(6):
+                    out.append({"n": 2, "vk": vk, "rows": [list(r) for r in rows], "obj": obj, "fmt": FMTS[idx % 4], "si": si, "nzpat": True,
+                                "lat": [0, 1, 2, 3]})
+                    idx += 1
     # constant integer-valued Jacobians / Hessians returned with an integer dtype
     for vk in (["free", "boxed"], ["lower", "upper"]):
         for rows in ([("affine", "eq0")], [("affine", "ranged"), ("affine", "eqoff")], [("affine", "upper")]):
@@ -64,6 +72,7 @@ def cases(tier, seed):
 
 def build(case):
     spec = S.mk(case["n"], case["obj"], [tuple(r) for r in case["rows"]], case["vk"], fmt=case["fmt"], idtype=case.get("idtype", False))
+    spec["nzpat"] = bool(case.get("nzpat"))
     sc = S.scalings(case["n"], len(case["rows"]), [0.625, -1.25, 0.75][: case["n"]])[case["si"]]
     return spec, sc
 
@@ -135,6 +144,13 @@ def run_case(case):
                 bad("restore_sol", np.concatenate([bx, by, bd]), np.concatenate([ex, ey, ed]), xu.tolist())
             if not (eq(bx, xu) and eq(by, y)):
                 bad("roundtrip", np.concatenate([bx, by]), np.concatenate([xu, y]), xu.tolist())
+        if np.all(xu == np.round(xu)):
+            # an integer-typed start (array of ints, or a scalar int broadcast by the solver) means the same point
+            xi_int = np.array(xu, dtype=np.int64)
+            iti = tr.create_transformed_iterate(xi_int, ys[1])
+            rxi, ryi = T.transform_sol(xu, ys[1])
+            if not eq(iti.x, rxi) or not eq(iti.y, ryi):
+                bad("initial_iterate(int start)", np.concatenate([iti.x, iti.y]), np.concatenate([rxi, ryi]), xu.tolist())
         it = tr.create_transformed_iterate(xu, ys[1])
         rx, ry = T.transform_sol(xu, ys[1])
         if not eq(it.x, rx) or not eq(it.y, ry):
